@@ -173,6 +173,35 @@ pub fn run(ctx: &Ctx) -> CheckResult {
             fams.extend(tick_walk_families(&cb, tl, ctx.seed, true, true));
             fams.extend(tick_walk_families(&cs, tl, ctx.seed, false, true));
         }
+        // medium periods with two (thorough: three) tie-producing deviations at every set of positions
+        // (props/devfam.rs), every step from the first deviation on
+        {
+            use super::devfam::*;
+            let plan: Vec<(usize, usize, &[Dev])> = if th { vec![(9, 3, &DEVS_ABS[..]), (9, 2, &DEVS_ALL[..]), (17, 2, &DEVS_ALL[..])] } else { vec![(9, 2, &DEVS_ALL[..])] };
+            let before = fams.len();
+            for &(n, k, devs) in &plan {
+                let len = 3 * n + 3;
+                for b in BASES {
+                    for bars in [false, true] {
+                        let base = std::sync::Arc::new(to_ops(&build(b, n, len, &[]), bars));
+                        let cfgs: Vec<Cfg> = if bars { vec![Cfg::p1(Kind::FastStoch, n), Cfg::p2(Kind::SlowStoch, n, 3), Cfg::p1(Kind::Cci, n), Cfg::p1(Kind::Mfi, n)] } else { vec![Cfg::p1(Kind::FastStoch, n), Cfg::p1(Kind::Er, n), Cfg::p1(Kind::Roc, n)] };
+                        for first in 0..len {
+                            for kk in 1..=k {
+                                for_each_from(first, len, kk, devs, &mut |set| {
+                                    let last = set.last().unwrap().0;
+                                    let deviations: Vec<(usize, Op)> = set.iter().map(|(p, d)| (*p, if bars { Op::B(bar_of(dev_value(*d, b, *p, n))) } else { Op::S(dev_value(*d, b, *p, n)) })).collect();
+                                    for cfg in &cfgs {
+                                        fams.push(Family { cfg: *cfg, base: base.clone(), base_name: "devfam", deviations: deviations.clone(), check_at: (first + 1..=(last + n + 3).min(len)).collect() });
+                                    }
+                                    true
+                                });
+                            }
+                        }
+                    }
+                }
+            }
+            res.extra.insert("multi_deviation_family_runs".into(), json!(fams.len() - before));
+        }
         let chunks: Vec<&[Family]> = fams.chunks(32).collect();
         let outs = par_run(ctx, &chunks, |_, chunk| {
             let mut out = JobOut::default();
